@@ -108,6 +108,7 @@ type evmSetup struct {
 	Reward   string     `json:"reward"`   // tokens allocated to the validator as rewards after the delegations
 	Withdraw []int      `json:"withdraw"` // preset withdraw address of actors 0..4 (-1 = default = self)
 	Grants   []evmGrant `json:"grants"`   // staking grants given by O
+	WdOff    bool       `json:"wd_off,omitempty"` // distribution param withdraw_addr_enabled = false
 }
 
 type evmInput struct {
@@ -203,6 +204,13 @@ func (e *evmEnv) setup(s evmSetup) error {
 			}
 		}
 	}
+	defer func() {
+		if s.WdOff {
+			p := e.App.DistrKeeper.GetParams(e.Ctx)
+			p.WithdrawAddrEnabled = false
+			_ = e.App.DistrKeeper.SetParams(e.Ctx, p)
+		}
+	}()
 	for a := 0; a <= aC3 && a < len(s.Withdraw); a++ {
 		if s.Withdraw[a] >= 0 && s.Withdraw[a] != a {
 			if err := e.App.DistrKeeper.SetWithdrawAddr(e.Ctx, accOf(a), accOf(s.Withdraw[a])); err != nil {
@@ -703,8 +711,8 @@ func (in evmInput) coq(rewards []string, slots map[[2]uint64]bool) string {
 	} else {
 		top = fmt.Sprintf("(TopCall %s %s)", coqN(in.To), coqBody(in.Body))
 	}
-	return fmt.Sprintf("(mkecase %s %s %s %s %s %s %s %s %s)", coqStrs(in.Setup.Bal), coqStrs(in.Setup.Deleg), coqStrs(rewards),
-		coqList(ws), coqList(gs), evmOrder(), coqSlots(slots), coqZ(bigOf(in.Value)), top)
+	return fmt.Sprintf("(mkecase %s %s %s %s %s %s %s %s %s "+coqBool(in.Setup.WdOff)+")", coqStrs(in.Setup.Bal), coqStrs(in.Setup.Deleg), coqStrs(rewards),
+		coqList(ws), coqList(gs), evmOrder(), coqSlots(slots), coqZ(bigOf(in.Value)), top) // e_wd_disabled appended below
 }
 
 // ---------------------------------------------------------------- one case
@@ -1155,6 +1163,9 @@ func evmGenP(r *Rng, caller int, s evmSetup) *evmPCall {
 		}
 	case "setwithdraw":
 		p.To = r.Intn(5)
+		if r.Chance(25) {
+			p.To = 5 + r.Intn(7) // a precompile or module address: the bank refuses those as withdraw address
+		}
 	}
 	return p
 }
@@ -1211,6 +1222,7 @@ func evmGen(r *Rng) evmInput {
 			s.Withdraw[a] = r.Intn(5)
 		}
 	}
+	s.WdOff = r.Chance(8)
 	s.Reward = "0"
 	if r.Chance(65) {
 		// the validator holds 10^18 self-bonded tokens: scale so that a delegation d earns about d*k/1000
